@@ -73,7 +73,19 @@ func raceClass(report string) (string, string) {
 	blocks := regexp.MustCompile(`(?m)^(Write|Read|Previous write|Previous read)[^\n]*\n((?:  .*\n|\s+.*\n)+?)\n`).FindAllStringSubmatch(report, -1)
 	var fns []string
 	for _, b := range blocks {
-		m := raceFn.FindStringSubmatch(b[2])
+		// the first frame that is not the Go runtime or reflection: that is
+		// where the program (not memmove) touches the memory
+		var m []string
+		for _, cand := range raceFn.FindAllStringSubmatch(b[2], -1) {
+			if strings.HasPrefix(cand[1], "runtime.") || strings.HasPrefix(cand[1], "reflect.") || strings.HasPrefix(cand[1], "internal/") {
+				continue
+			}
+			m = cand
+			break
+		}
+		if m == nil {
+			m = raceFn.FindStringSubmatch(b[2])
+		}
 		if m != nil {
 			fn := m[1]
 			file := m[2]
@@ -353,7 +365,7 @@ func cmdShrink(args []string) {
 		fmt.Fprintln(os.Stderr, "record has no violation")
 		os.Exit(ExitTrouble)
 	}
-	isolated := s.Isolated() || strings.Contains(want, "hang") || strings.HasPrefix(want, "race/")
+	isolated := s.Isolated() || strings.Contains(want, "/hang") || strings.HasPrefix(want, "race/")
 	var lastRes sim.Result
 	self, _ := os.Executable()
 	tmp, _ := os.CreateTemp("", "shrinkcand-*.json")
